@@ -15,6 +15,7 @@ import (
 	"os"
 	"path/filepath"
 	"sort"
+	"strings"
 	"sync"
 	"time"
 
@@ -471,11 +472,21 @@ func PgTerm(pgno uint32, data []byte) string {
 func (r *Rec) Write(pgno uint32, data []byte) { r.add("OWrite %d %s", pgno, PgTerm(pgno, data)) }
 func (r *Rec) Truncate(n uint32)              { r.add("OTruncate %d", n) }
 func (r *Rec) CommitJournal(commit uint32)    { r.add("OCommitJournal %d", commit) }
-func (r *Rec) WalHeader()                     { r.add("OWalHeader") }
-func (r *Rec) WalTruncate()                   { r.add("OWalTruncate") }
-func (r *Rec) Checkpoint()                    { r.add("OCheckpoint") }
-func (r *Rec) Open()                          { r.add("OOpen") }
-func (r *Rec) Drop()                          { r.add("ODrop") }
+
+// CommitJournalFailed: the commit recorded last was attempted and refused (the journal could not be finalised).
+func (r *Rec) CommitJournalFailed() {
+	if r == nil || len(r.Ops) == 0 {
+		return
+	}
+	if last := r.Ops[len(r.Ops)-1]; strings.HasPrefix(last, "OCommitJournal ") {
+		r.Ops[len(r.Ops)-1] = "OCommitJournalFail " + strings.TrimPrefix(last, "OCommitJournal ")
+	}
+}
+func (r *Rec) WalHeader()   { r.add("OWalHeader") }
+func (r *Rec) WalTruncate() { r.add("OWalTruncate") }
+func (r *Rec) Checkpoint()  { r.add("OCheckpoint") }
+func (r *Rec) Open()        { r.add("OOpen") }
+func (r *Rec) Drop()        { r.add("ODrop") }
 func (r *Rec) CommitWal(frames []WALFrameSpec, commit uint32) {
 	if r == nil {
 		return
@@ -771,12 +782,16 @@ func (p *Pager) RunRollbackTx(prev *Image, tx Tx, jm JournalMode, outcome Rollba
 	if err := finalize(); err != nil {
 		if p.RollbackOnCommitError {
 			// what SQLite does when the journal cannot be finalised: play it back, finalise again
+			p.Rec.CommitJournalFailed()
 			for _, pg := range recs {
 				_ = db.WriteDatabaseAt(ctx, dbf, prev.Pages[pg-1], int64(pg-1)*int64(ps), o)
+				p.Rec.Write(pg, prev.Pages[pg-1])
 			}
 			if (tx.NewSize > uint32(len(prev.Pages)) || maxWritten > uint32(len(prev.Pages))) && len(prev.Pages) > 0 {
 				_ = db.TruncateDatabase(ctx, int64(len(prev.Pages))*int64(ps))
+				p.Rec.Truncate(uint32(len(prev.Pages)))
 			}
+			p.Rec.CommitJournal(uint32(len(prev.Pages)))
 			p.CommitErr2 = finalize()
 			p.logf("commit refused (%v): rolled back, second finalize: %v", err, p.CommitErr2)
 		}
